@@ -33,7 +33,7 @@ ASSUMPTIONS = [
     "entry tolerance 1e-9 s_i s_j with s^2 = trace of the 3x3 diagonal block of |M| |C0| |M|^T (rounding scale of the "
     "formula); C0 = A diag(10^(c + U(-5,5))) A^T with A orthogonal (condition <= 1e10), half of the cases rescaled "
     "to metres / metres per second standard deviations",
-    "a copy is adopted (orb.cov = copy) only while the state is in a non-rotating frame",
+    "copy_cov may re-attach the copy to the state (orb.cov = copy), whatever frame the state is in by then",
     "EOP configuration 'zero' on even shards, 'real' on odd shards; dates 1975 .. 2016",
 ]
 LEVEL_TEXT = "exploration"
@@ -325,7 +325,7 @@ def check_history(case):
             if shared:
                 raise Violation("copy-aliased", f"writing into Cov.copy(frame={F}) changed the original [{describe(case, step)}]",
                                 step=step)
-            if op.get("adopt") and model.state_frame in START:
+            if op.get("adopt"):
                 orb.cov = new
                 model.cov_frame = target
                 cls.append("adopt")
